@@ -417,13 +417,14 @@ class _Norm(ast.NodeTransformer):
         it = n.iter
         if (isinstance(it, ast.ListComp) and len(it.generators) == 2 and not any(g.is_async or g.ifs for g in it.generators)
                 and isinstance(it.elt, ast.Name) and isinstance(it.generators[1].target, ast.Name) and it.elt.id == it.generators[1].target.id
-                and isinstance(it.generators[0].target, ast.Name) and isinstance(it.generators[1].iter, ast.Name)
-                and it.generators[1].iter.id == it.generators[0].target.id
+                and all(isinstance(x, ast.Name) for x in ast.walk(it.generators[0].target) if not isinstance(x, (ast.Tuple, ast.List, ast.expr_context)))
+                and {x.id for x in ast.walk(it.generators[1].iter) if isinstance(x, ast.Name)}
+                <= {x.id for x in ast.walk(it.generators[0].target) if isinstance(x, ast.Name)}
                 and isinstance(n.target, ast.Name) and not n.orelse and self.fn_stack):
-            probe = ast.ListComp(it.generators[0].target, [it.generators[0]])
+            probe = ast.ListComp(ast.Constant(None), [it.generators[0]])
             fn = self.fn_stack[-1]
             inside = {id(x) for x in ast.walk(it)}
-            gen_names = {it.generators[0].target.id, it.generators[1].target.id}
+            gen_names = {x.id for x in ast.walk(it.generators[0].target) if isinstance(x, ast.Name)} | {it.generators[1].target.id}
             yv = n.target.id
             clash = any(isinstance(x, ast.Name) and x.id in gen_names - {yv} and id(x) not in inside for x in ast.walk(fn))
             if not clash and _filter_independent(probe, n.body):
@@ -433,8 +434,9 @@ class _Norm(ast.NodeTransformer):
                     for b in n.body:
                         for x in [x for x in ast.walk(b) if isinstance(x, ast.Name) and x.id == yv]:
                             x.id = bv
-                g1.target.ctx = ast.Store()
-                g2.target.ctx = ast.Store()
+                for x in list(ast.walk(g1.target)) + [g2.target]:
+                    if isinstance(x, (ast.Name, ast.Tuple, ast.List)):
+                        x.ctx = ast.Store()
                 inner = ast.copy_location(ast.For(g2.target, g2.iter, n.body, [], lineno=n.lineno), n)
                 return ast.copy_location(ast.For(g1.target, g1.iter, [inner], [], lineno=n.lineno), n)
         # N34c: `for y in (b for a in XS for b in YS): BODY` -> `for a in XS: for b in YS: BODY[y:=b]` (a generator: consumed lazily)
